@@ -23,6 +23,26 @@ def coq_list(items):
     return '[' + '; '.join(items) + ']'
 
 
+def toml_unescape(t):
+    """escapes of a TOML basic (multi-line) string"""
+    out = []
+    i = 0
+    if t.startswith('\n'):
+        t = t[1:]                 # a newline right after the opening delimiter is trimmed
+    while i < len(t):
+        c = t[i]
+        if c == '\\' and i + 1 < len(t):
+            e = t[i + 1]
+            m = {'b': '\b', 't': '\t', 'n': '\n', 'f': '\f', 'r': '\r', '"': '"', '\\': '\\'}
+            if e in m:
+                out.append(m[e])
+                i += 2
+                continue
+        out.append(c)
+        i += 1
+    return ''.join(out)
+
+
 def fn_body(src, header_re):
     """text of the brace-balanced block following the first match of header_re"""
     m = re.search(header_re, src)
@@ -112,7 +132,9 @@ def extract():
     m = re.search(r'tag\("(\w+)"\)\s*\.or\(tag\("(\w+)"\)\)\s*\.precedes\(req_single_arg\("the numeric value to find the average of"\)\)', lang)
     put('avg_tags', m and [m.group(1), m.group(2)])
     b = fn_body(lang, r'fn duration_fragment\(input: Span\) -> IResult<Span, chrono::Duration> \{')
-    put('duration_suffixes', re.findall(r'tag\("(\w+)"\)\.map\(move \|_\| chrono::Duration::(\w+)\(amount\)\)', b or '') or None)
+    sfx = re.findall(r'tag\("(\w+)"\)\.map\(move \|_\| (?:Some\()?chrono::Duration::(\w+)\(amount\)\)?\)', b or '')
+    # every alternative of the alt((...)) must have been recognised, otherwise the fragment counts as not located
+    put('duration_suffixes', sfx if sfx and len(sfx) == len(re.findall(r'tag\("', b or '')) else None)
 
     m = re.search(r'pub const VALID_AGGREGATES: &\[&str\] = &\[(.*?)\];', lang, re.S)
     put('valid_aggregates', m and re.findall(r'"(\w+)"', m.group(1)))
@@ -129,7 +151,7 @@ def extract():
             kw = re.search(r'^keyword\s*=\s*"(.*)"\s*$', t, re.M)
             tm = re.search(r'^template\s*=\s*"""(.*?)"""', t, re.M | re.S) or re.search(r'^template\s*=\s*"(.*)"\s*$', t, re.M)
             if kw and tm:
-                aliases.append((kw.group(1), tm.group(1)))
+                aliases.append((kw.group(1), toml_unescape(tm.group(1))))
     put('alias_table', aliases or None)
     return facts, stale
 
